@@ -17,7 +17,7 @@ FIELD_NAMES = [b"X-Foo", b"Accept", b"x-lower", b"X_Under", b"Content-Type", b"U
                b"Cookie", b"X-Forwarded-For", b"Remote-Addr", b"Server-Name", b"X-9", b"If-None-Match"]
 FIELD_VALUES = [b"a", b"text/plain", b"x y", b"\xe9t\xe9", b"a, b", b"", b"1", b"w/\"etag\"", b"a\tb", b"v=1; q=0.5"]
 
-MUT_REQLINE = ["lead_crlf", "lead_ws", "method_lower", "version_other", "version_absent", "reqline_extra_sp",
+MUT_REQLINE = ["target_bad_ipv6", "target_odd_chars", "lead_crlf", "lead_ws", "method_lower", "version_other", "version_absent", "reqline_extra_sp",
                "reqline_tab", "reqline_trailing_ws", "reqline_bare_lf", "reqline_bare_cr"]
 MUT_HEADER = ["hdr_bare_lf_term", "hdr_bare_cr_term", "hdr_lf_in_value", "hdr_cr_in_value", "head_end_lflf",
               "head_end_crlflf", "ws_before_colon", "name_space", "name_empty", "name_paren", "no_colon_line",
@@ -150,7 +150,17 @@ def apply_mutation(m, label, W):
     either = lambda must_close=None, dontcare=(): ("EITHER", {"must_close": must_close, "dontcare": set(dontcare)})
     V = None
     # ---------------------------------------------------------- request line
-    if label == "lead_crlf":
+    if label == "target_bad_ipv6":
+        # syntactically broken authority in the request-target: refusing is right, accepting as an opaque
+        # target is tolerable, raising is not
+        m["target"] = W.choice([b"http://[/", b"http://[::1/x", b"//[/y", b"http://]/", b"http://[v1.x]/p", b"http://[::1]:x/",
+                                b"https://[[::1]]/", b"http://a]b/"])
+        V = either(dontcare=("target", "method"))
+    elif label == "target_odd_chars":
+        m["target"] = W.choice([b"/a\\b", b"/a|b", b"/a^b", b"/a`b", b"/{x}", b"/a\"b", b"/<x>", b"/a%", b"/%%", b"/a%2", b"?only=query",
+                                b"/a?b?c", b"/;;;", b"/..%2f..", b"/a\x7fb", b"/a\x01b"])
+        V = either(dontcare=("target", "method"))
+    elif label == "lead_crlf":
         ov["prefix"] = CRLF * (1 + W.draw(2))
         V = either(dontcare=())
     elif label == "lead_ws":
@@ -514,7 +524,8 @@ def finalize(m):
     status = r1_request.parse_message(raw + b"GET /tail HTTP/1.1\r\n\r\n", 0)
     m["r1"] = status[0] if status[0] != "bad" else "bad:" + status[1]
     label = m["mutation"]
-    lenient_ok = label in ("cl_underscore_alias", "te_underscore_alias", "dup_host", "dup_content_type")
+    lenient_ok = label in ("cl_underscore_alias", "te_underscore_alias", "dup_host", "dup_content_type",
+                          "target_bad_ipv6", "target_odd_chars")  # (R1 does not judge URI syntax or field semantics)
     if V[0] == "ACCEPT":
         if status[0] != "ok":
             raise AssertionError("oracle self-check: generator says ACCEPT (%s) but R1 says %r for %r" % (label, status, raw[:200]))
